@@ -8,7 +8,7 @@ use crate::__verif_support::*;
 // C03: Zeta returns an integer >= 1 or the documented +inf
 // ------------------------------------------------------------------------------------------
 macro_rules! c03_zeta {
-    ($name:ident, $f:ty) => {
+    ($name:ident, $f:ty, $mins1:expr) => {
         vproof! {
             #[kani::unwind(3)]
             fn $name() {
@@ -16,10 +16,14 @@ macro_rules! c03_zeta {
                 let s: $f = kani::any();
                 let d = match Zeta::<$f>::new(s) { Ok(d) => d, Err(_) => return };
                 kani::assume(s <= 1001.0);
+                // the documentation names an infinite result only for s so close to 1 that the proposal
+                // u^(-1/(s-1)) overflows; for s - 1 >= the envelope bound it cannot (u >= 2^-53 resp. 2^-24)
+                let in_e = s - 1.0 >= $mins1;
                 let x: $f = d.sample(&mut rng);
                 vassert!(x == x, "Zeta sample is NaN");
                 vassert!(x >= 1.0, "Zeta sample below 1");
                 vassert!(x.is_infinite() || x == x.floor(), "Zeta sample is not an integer");
+                vassert!(!in_e || x.is_finite(), "Zeta sample is infinite although s is not close to 1");
                 kani::cover!(x == 1.0, "x = 1");
                 kani::cover!(x.is_infinite(), "documented infinite result");
             }
@@ -33,7 +37,7 @@ macro_rules! c03_zeta {
 //@ funcs: Zeta::<f64>::new; Zeta::<f64>::sample
 //@ bounds: s in (1, 1001]; first trial (<= 2 words)
 //@ assumes: libm::pow by contract
-c03_zeta!(c03_zeta_f64, f64);
+c03_zeta!(c03_zeta_f64, f64, 0.06);
 //@ id: c03_zeta_f32
 //@ prop: C03
 //@ tier: quick
@@ -41,7 +45,7 @@ c03_zeta!(c03_zeta_f64, f64);
 //@ funcs: Zeta::<f32>::new; Zeta::<f32>::sample
 //@ bounds: s in (1, 1001]; first trial (<= 2 words), all 2^24 uniform values
 //@ assumes: libm::powf by contract
-c03_zeta!(c03_zeta_f32, f32);
+c03_zeta!(c03_zeta_f32, f32, 0.25);
 
 // ------------------------------------------------------------------------------------------
 // C05: no parameter regime in E rejects independently of the stream.  Witness stream: the first draw is the
@@ -79,6 +83,7 @@ fn vnz64(w: u64) -> bool { (w >> 11) != 0 }
 //@ assumes: libm::powf by contract (functional; 2^y = inf for y >= 128; pow(1, y) = 1)
 c05_zeta!(c05_zeta_accept_f32_inf, f32, 129.0, 1001.0, vnz32);
 //@ id: c05_zeta_accept_f32
+//@ besteffort: yes
 //@ prop: C05
 //@ tier: thorough
 //@ cap: 1500
